@@ -21,6 +21,7 @@ func main() {
 	keep := flag.Bool("keep", false, "keep SMT files")
 	verbose := flag.Bool("v", false, "verbose")
 	mode := flag.String("floats", "", "override float mode")
+	stmts := flag.Bool("stmts", false, "print the statement ordinals of the selected functions and exit")
 	flag.Parse()
 	t0 := time.Now()
 	p, err := vc.Load(*repo, *specs)
@@ -36,6 +37,10 @@ func main() {
 			if fi == nil {
 				fmt.Fprintln(os.Stderr, "no such function:", f)
 				os.Exit(2)
+			}
+			if *stmts {
+				vc.PrintStmtOrdinals(p, fi)
+				continue
 			}
 			vcs = append(vcs, vc.VerifyFunc(p, fi, *mode))
 		}
